@@ -77,12 +77,28 @@ func argumentsGetOwnProperty(obj *object, name string) *property {
 }
 
 func argumentsDefineOwnProperty(obj *object, name string, descriptor property, throw bool) bool {
-	if _, exists := obj.value.(argumentsObject).get(name); exists {
+	if current, exists := obj.value.(argumentsObject).get(name); exists {
+		// 10.6 [[DefineOwnProperty]] step 5: an accessor ends the mapping to the
+		// formal parameter; a value is written through, and a read-only property
+		// ends the mapping after that.
+		newValue, hasValue := descriptor.value.(Value)
+		readOnly := descriptor.writeSet() && !descriptor.writable()
+		if readOnly && descriptor.value == nil {
+			// The property keeps the last value of the parameter.
+			descriptor.value = current
+		}
 		if !objectDefineOwnProperty(obj, name, descriptor, false) {
 			return obj.runtime.typeErrorResult(throw)
 		}
-		if value, valid := descriptor.value.(Value); valid {
-			obj.value.(argumentsObject).put(name, value)
+		if descriptor.isAccessorDescriptor() {
+			obj.value.(argumentsObject).delete(name)
+			return true
+		}
+		if hasValue {
+			obj.value.(argumentsObject).put(name, newValue)
+		}
+		if readOnly {
+			obj.value.(argumentsObject).delete(name)
 		}
 		return true
 	}
